@@ -1,7 +1,12 @@
 pub mod c01;
+pub mod c02;
+pub mod c03;
+pub mod c05;
+pub mod c08;
+pub mod common;
 
 use crate::checks::CheckDef;
 
 pub fn all() -> Vec<CheckDef> {
-    vec![c01::def()]
+    vec![c01::def(), c02::def(), c03::def(), c05::def(), c08::def()]
 }
